@@ -43,7 +43,7 @@ def program_strategy(role):
 
 
 class ThreadRun:
-    def __init__(self, kind, d, pool_size=7, prehistory=0):
+    def __init__(self, kind, d, pool_size=7, prehistory=0, warm=True):
         import transaction
         import ZODB
         import ZODB.ConflictResolution as CR
@@ -73,6 +73,10 @@ class ThreadRun:
             self.pre_tids.append(c.root()[PLAIN[0]]._p_serial)
         clock.CLOCK.advance(1.0)
         tm.abort()
+        # the threads' connections come from the pool: warm (the cache the set-up left behind: stale-cache
+        # bugs need cached objects) or cold (ghosts: every first read is a real storage load)
+        if not warm:
+            c.cacheMinimize()
         c.close()
         self.events = []        # (tick, thread, kind, data)
         self.wid = 0
@@ -381,6 +385,31 @@ def snapshot_oracle(run, out, prop):
                          '%r (superseded at %r)' % (th, t_done, seg['reads'], hi))
                 return n
     return n
+
+
+def final_reads_oracle(run, out, prop):
+    """after all threads have ended: what the storage's load() answers (through its pooled read handles, index
+    and caches, as left behind by the threads) is the newest record its own iterator lists, for every object"""
+    st_ = run.db.storage
+    latest = {}
+    it = st_.iterator()
+    for t in it:
+        for r in t:
+            latest[r.oid] = (r.data, t.tid)
+    getattr(it, 'close', lambda: None)()
+    for rnd in range(3):
+        for oid, (data, tid) in sorted(latest.items()):
+            if data is None:
+                continue
+            try:
+                got = st_.load(oid)
+            except Exception as e:          # noqa: B902  reported
+                got = 'raises %s(%s)' % (type(e).__name__, str(e)[:80])
+            if got != (data, tid):
+                out.fail((prop, 'threads-final-reads', 'load-differs-from-iterator'),
+                         'after the threads ended load(%s) answers %s ; the newest record listed by the iterator is tid %r (%d bytes)' % (
+                             oid.hex(), got if isinstance(got, str) else (got[1], len(got[0])), tid, len(data)))
+                return
 
 
 def history_oracle(run, out, prop):
